@@ -1,4 +1,4 @@
-use super::{Node, RustDocument, RustFieldType, TryFromNode, WriterError, complex::ComplexProps};
+use super::{Namespace, Node, Rc, RustDocument, RustFieldType, TryFromNode, WriterError, complex::ComplexProps};
 use crate::model::{
     field::{OtherRustType, as_rust_type},
     node::collect_namespaces_on_node,
@@ -8,6 +8,7 @@ use crate::model::{
 pub struct ElementProps {
     pub xml_name: String,
     pub element_type: ElementType,
+    pub target_namespace: Option<Rc<Namespace>>,
 }
 
 #[derive(Debug, PartialEq)]
@@ -45,10 +46,13 @@ impl<'n> TryFromNode<'n> for ElementProps {
             .ok_or_else(|| WriterError::attribute_missing(&node, "name"))?
             .to_string();
 
+        let target_namespace = doc.current_target_namespace.clone();
+
         if let Some(rust_type) = node.attribute("type").map(|t| as_rust_type(t, doc)) {
             return Ok(ElementProps {
                 xml_name,
                 element_type: ElementType::RustType(rust_type),
+                target_namespace,
             });
         }
 
@@ -59,6 +63,7 @@ impl<'n> TryFromNode<'n> for ElementProps {
                 return Ok(ElementProps {
                     xml_name,
                     element_type: ElementType::ComplexType(complex_props),
+                    target_namespace,
                 });
             }
         }
@@ -66,6 +71,7 @@ impl<'n> TryFromNode<'n> for ElementProps {
         Ok(ElementProps {
             xml_name,
             element_type: ElementType::Unsupported,
+            target_namespace,
         })
     }
 }
